@@ -10,3 +10,64 @@ package goat
 //@   ensures[C08.malformed_ignored]    !DU(timeout) ==> !result.1
 //@   ensures[C08.overlong_not_misread] DU(timeout) && result.1 ==> result.0 == timeoutNs(timeout)
 //@   ensures[C08.never_negative]       result.1 ==> result.0 >= 0
+
+// ---------------------------------------------------------------------------------
+// small pure helpers
+
+//@ func goat.parseRawMethod
+//@   nopanic[C12.nopanic]
+//@   ensures[C12.method_split] result.2 == nil ==> old(sm) == ite(strAt(old(sm), 0) == "/", "/", "") + result.0 + "/" + result.1 && !strContains(result.1, "/")
+//@   ensures[C12.method_reject] !strContains(ite(strAt(old(sm), 0) == "/", strFrom(old(sm), 1), old(sm)), "/") ==> result.2 != nil
+
+// ---------------------------------------------------------------------------------
+// server: per-connection handler
+
+//@ objinv[C12.objinv C10.objinv C14.objinv C05.objinv C01.objinv C11.objinv C06.objinv C03.objinv C02.objinv C07.objinv C20.objinv C16.objinv C04.objinv] goat.handler :
+//@   | self.ctx != nil && self.cancel != nil && self.srv != nil && self.rw != nil && self.codec != nil && self.streams != nil && self.writeChan != nil && self.unaryRpcChan != nil
+//@   | && self.srv.services != nil && (forall j Int :: 0 <= j && j < len(self.srv.statsHandlers) ==> self.srv.statsHandlers[j] != nil)
+
+//@ chanclass goat.streams.ch msg: m != nil && m.Id == tag(ch) && m.Header != nil
+//@ chan H.goat.handler.writeChan never_closed
+//@ chan H.goat.handler.unaryRpcChan never_closed
+//@ chan Mval.map_Luint64_Rgoat.streamHandler.ch never_closed
+//@ chan Mval.map_Luint64_Rgoat.streamHandler.done never_closed
+
+// the transport's write side belongs to the writer goroutine started by serve
+//@ field[C06.single_writer C03.single_writer] goat.handler.rw used_only_in goat.newHandler goat.(*handler).serve goat.(*handler).serve$1
+
+//@ lock goat.handler.mu teardown guards streams
+//@   inv[C05.stream_registry C12.stream_registry C14.stream_registry C10.stream_registry C07.stream_registry C11.stream_registry C02.stream_registry] forall id Int :: id in self.streams ==>
+//@     | self.streams[id].ch != nil && isclass(self.streams[id].ch, "goat.streams.ch") && tag(self.streams[id].ch) == id
+//@     | && self.streams[id].done != nil && tag(self.streams[id].done) == id && cap(self.streams[id].done) == 1 && chlen(self.streams[id].done) == 0 && self.streams[id].cancel != nil
+
+//@ func goat.(*handler).resetStream
+//@   nopanic[C12.nopanic]
+//@   requires rpc != nil && rpc.Header != nil
+//@   atcall[C06.reset_shape C12.reset_for_unknown C16.return_route] (types.RpcReadWriter).Write :
+//@     | arg2 != nil && arg2.Id == rpc.Id && arg2.Reset_ != nil && arg2.Reset_.Type == "RST_STREAM" && arg2.Trailer != nil && arg2.Body == nil && arg2.Status == nil
+//@     | && arg2.Header != nil && arg2.Header.Method == rpc.Header.Method && arg2.Header.Source == rpc.Header.Destination && arg2.Header.Destination == rpc.Header.Source
+//@   ensures[C06.reset_once C12.reset_for_unknown] ncalls("(types.RpcReadWriter).Write") == old(ncalls("(types.RpcReadWriter).Write")) + 1
+
+//@ func goat.(*handler).unregisterStream
+//@   nopanic[C12.nopanic C14.nopanic C10.nopanic]
+//@   ensures[C14.unregistered C10.unregistered] !(id in h.streams)
+
+//@ func goat.(*handler).cancelAndWaitForStreams
+//@   nopanic[C10.nopanic]
+//@   loop 0 invariant[C10.drain] lockinv(h, "goat.handler.mu")
+//@   ensures[C10.all_streams_gone] len(h.streams) == 0
+
+//@ func goat.(*handler).processStreamingRpc
+//@   nopanic[C12.nopanic]
+//@   requires[C12.dispatch_wellformed] rpc != nil && rpc.Header != nil && info != nil && sd != nil && clientCtx != nil
+//@   makechan 0 tag rpc.Id class goat.streams.ch
+//@   makechan 1 tag rpc.Id
+//@   atcall[C05.deliver_to_owner C02.forward_unchanged] send : isclass(arg0, "goat.streams.ch") ==> tag(arg0) == rpc.Id && arg1 == rpc
+//@   ensures[C12.start_at_most_once C05.start_at_most_once] ncalls("go:(*github.com/avos-io/goat.handler).runStream") <= old(ncalls("go:(*github.com/avos-io/goat.handler).runStream")) + 1
+//@   ensures[C12.no_start_for_known_or_malformed C14.no_start_for_known_or_malformed] atlock(rpc.Id in h.streams) || (rpc.Reset_ != nil && rpc.Reset_.Type == "RST_STREAM") || rpc.Body != nil || rpc.Trailer != nil ==>
+//@     | ncalls("go:(*github.com/avos-io/goat.handler).runStream") == old(ncalls("go:(*github.com/avos-io/goat.handler).runStream"))
+//@   ensures[C12.reset_for_unknown_body] !atlock(rpc.Id in h.streams) && !(rpc.Reset_ != nil && rpc.Reset_.Type == "RST_STREAM") && rpc.Body != nil ==>
+//@     | ncalls("call:goat.(*handler).resetStream") == old(ncalls("call:goat.(*handler).resetStream")) + 1
+//@   ensures[C07.reset_cancels_handler] atlock(rpc.Id in h.streams) && (rpc.Reset_ != nil && rpc.Reset_.Type == "RST_STREAM") ==> done(cancels(atlock(h.streams[rpc.Id].cancel)))
+//@   ensures[C14.registered_iff_started C05.registered_iff_started] ncalls("go:(*github.com/avos-io/goat.handler).runStream") == old(ncalls("go:(*github.com/avos-io/goat.handler).runStream")) + 1
+//@     | ==> rpc.Id in h.streams
